@@ -40,6 +40,9 @@ const (
 	kBool
 	kError
 	kStruct // flattened pointer-to-struct parameter / pointer-to-struct result
+	kTime   // time.Time as Z nanoseconds since the Unix epoch (no overflow modelled)
+	kDur    // time.Duration as Z nanoseconds
+	kBytes  // []byte / sdk.AccAddress compared bytewise (Gallina string)
 )
 
 type typ struct {
@@ -67,6 +70,12 @@ func (t typ) String() string {
 		return "bool"
 	case kError:
 		return "error"
+	case kTime:
+		return "time.Time"
+	case kDur:
+		return "time.Duration"
+	case kBytes:
+		return "[]byte"
 	}
 	return "struct"
 }
@@ -76,6 +85,9 @@ func (t typ) numeric() bool { return t.k != kBool && t.k != kError && t.k != kSt
 func coqType(t typ) string {
 	if t.k == kBool {
 		return "bool"
+	}
+	if t.k == kBytes {
+		return "string"
 	}
 	return "Z"
 }
@@ -87,9 +99,25 @@ type fieldSpec struct {
 	T    typ
 }
 
+type marker struct {
+	Name string
+	Args []int // indices of the numeric call arguments that are captured (none: a bool flag)
+}
+
 type spec struct {
 	File      string
-	Func      string
+	Func      string // top-level function, or (with Closure / SliceOf) the function or method that contains the kernel
+	Out       string // name of the Gallina definition (default Func)
+	// Closure: the kernel is the function literal passed to the call <x>.<Closure>(...) inside Func
+	Closure string
+	// SliceOf: the kernel is the value slice of these local variables of Func: the top-level assignments they depend on
+	SliceOf []string
+	Inputs  []fieldSpec // (SliceOf) locals / parameters of Func that are inputs of the slice: their definitions are not followed
+	Reads   map[string]fieldSpec // argument-less calls that read the environment, by path: "ctx.BlockTime" -> parameter
+	ExtErr  map[string]string    // `if err := <path>(); err != nil`: outcome decided outside -> bool parameter (true = nil)
+	Skip    []string             // effect statements outside the decision part (logging, events): call-path prefixes
+	Markers map[string]marker    // effect statements whose execution (and numeric arguments) are part of the result
+	Alias   map[string]fieldSpec // expressions standing for an abstract element, by source text -> parameter
 	Flatten   map[string][]fieldSpec // pointer-to-struct parameters replaced by these numeric fields
 	RetFields []string               // pointer-to-struct result: the numeric fields of the composite literal that are output
 	Required  bool
@@ -105,6 +133,33 @@ var whitelist = []spec{
 		RetFields: []string{"Amount"}},
 	{File: "x/evm/keeper/gas.go", Func: "GasToRefund"},
 	{File: "x/oracle/keeper/common/types.go", Func: "ExceedsThreshold"},
+	// decision part of the closure of x/epochs BeginBlocker (hook fan-out, events and the store write stay outside)
+	{File: "x/epochs/keeper/abci.go", Func: "BeginBlocker", Out: "epoch_tick_decision", Closure: "IterateEpochInfos",
+		Flatten: map[string][]fieldSpec{"epochInfo": {
+			{"StartTime", typ{k: kTime}}, {"Duration", typ{k: kDur}}, {"CurrentEpoch", typ{kSInt, 64}},
+			{"CurrentEpochStartTime", typ{k: kTime}}, {"EpochCountingStarted", typ{k: kBool}},
+			{"CurrentEpochStartHeight", typ{kSInt, 64}}}},
+		Reads:  map[string]fieldSpec{"ctx.BlockTime": {"blockTime", typ{k: kTime}}, "ctx.BlockHeight": {"blockHeight", typ{kSInt, 64}}},
+		ExtErr: map[string]string{"epochInfo.Validate": "epochInfo_valid"},
+		Skip:   []string{"logger.", "ctx.EventManager()."},
+		Markers: map[string]marker{"k.setEpochInfoUnchecked": {Name: "saved"},
+			"k.Hooks().AfterEpochEnd": {Name: "after_epoch_end", Args: []int{2}}, "k.Hooks().BeforeEpochStart": {Name: "before_epoch_start", Args: []int{2}}}},
+	// comparator of utils.SortByPower
+	{File: "utils/utils.go", Func: "SortByPower", Out: "sort_by_power_less", Closure: "Slice",
+		Alias: map[string]fieldSpec{"powers[indices[i]]": {"power_i", typ{kSInt, 64}}, "powers[indices[j]]": {"power_j", typ{kSInt, 64}},
+			"operatorAddrs[indices[i]]": {"addr_i", typ{k: kBytes}}, "operatorAddrs[indices[j]]": {"addr_j", typ{k: kBytes}}}},
+	// per-validator reward of x/feedistribution AllocateTokens; sdk.DecCoins is handled per denomination: the amount
+	// of ONE coin is a LegacyDec and DecCoins.MulDecTruncate is LegacyDec.MulTruncate on it
+	{File: "x/feedistribution/keeper/allocation.go", Func: "AllocateTokens", Out: "validator_reward", SliceOf: []string{"reward"},
+		Inputs: []fieldSpec{{"feesCollected", typ{k: kDec}}, {"communityTax", typ{k: kDec}}, {"totalPreviousPower", typ{kSInt, 64}}},
+		Flatten: map[string][]fieldSpec{"val": {{"Power", typ{kSInt, 64}}}}},
+	// and per-staker reward of AllocateTokensToStakers
+	{File: "x/feedistribution/keeper/allocation.go", Func: "AllocateTokensToStakers", Out: "staker_reward", SliceOf: []string{"rewardToSingleStaker"},
+		Inputs: []fieldSpec{{"rewardToAllStakers", typ{k: kDec}}, {"stakerPower", typ{k: kDec}}, {"curTotalStakersPowers", typ{k: kDec}}}},
+	// the proportion that SlashAssets applies
+	{File: "x/operator/keeper/slash.go", Func: "SlashAssets", Out: "slash_proportion", SliceOf: []string{"newSlashProportion"},
+		Flatten: map[string][]fieldSpec{"parameter": {{"Power", typ{kSInt, 64}}, {"SlashProportion", typ{k: kDec}}},
+			"stakingInfo": {{"StakingAndWaitUnbonding", typ{k: kDec}}}}},
 }
 
 // ---- tables --------------------------------------------------------------------------------------
@@ -151,6 +206,7 @@ var methods = func() map[string]op {
 		"Dec.Sub":          {args: []kind{kDec}, res: tDec, tmpl: "($r - $1)", post: decOK},
 		"Dec.Mul":          {args: []kind{kDec}, res: tDec, tmpl: "(dec_mul $r $1)", post: decOK},
 		"Dec.MulTruncate":  {args: []kind{kDec}, res: tDec, tmpl: "(dec_mul_trunc $r $1)", post: decOK},
+		"Dec.MulDecTruncate": {args: []kind{kDec}, res: tDec, tmpl: "(dec_mul_trunc $r $1)", post: decOK},
 		"Dec.MulInt":       {args: []kind{kInt}, res: tDec, tmpl: "(dec_mul_int $r $1)", post: decOK},
 		"Dec.MulInt64":     {args: []kind{kSInt}, res: tDec, tmpl: "(dec_mul_int $r $1)", post: decOK},
 		"Dec.Quo":          {args: []kind{kDec}, res: tDec, tmpl: "(dec_quo $r $1)", pre: div0("$1"), post: decOK},
@@ -161,6 +217,11 @@ var methods = func() map[string]op {
 		"Dec.TruncateInt":  {res: tInt, tmpl: "(dec_trunc_int $r)", post: intOK},
 		"Dec.RoundInt":     {res: tInt, tmpl: "(dec_round_int $r)", post: intOK},
 		"Dec.Ceil":         {res: tDec, tmpl: "(dec_ceil $r)"},
+		"Time.Before":      {args: []kind{kTime}, res: tBool, tmpl: "($r <? $1)"},
+		"Time.After":       {args: []kind{kTime}, res: tBool, tmpl: "($r >? $1)"},
+		"Time.Equal":       {args: []kind{kTime}, res: tBool, tmpl: "($r =? $1)"},
+		"Time.Add":         {args: []kind{kDur}, res: typ{k: kTime}, tmpl: "($r + $1)"},
+		"Time.Sub":         {args: []kind{kTime}, res: typ{k: kDur}, tmpl: "($r - $1)"},
 		"Big.Cmp":          {args: []kind{kBig}, res: tSInt, tmpl: "(zcmp $r $1)"},
 		"Big.Sign":         {res: tSInt, tmpl: "(Z.sgn $r)"},
 		"BigRecv.Mul":      {args: []kind{kBig, kBig}, res: tBig, tmpl: "($1 * $2)"},
@@ -187,6 +248,7 @@ var pkgFuncs = func() map[string]op {
 		pMath + ".OneInt":            {res: tInt, tmpl: "1"},
 		pMath + ".NewIntWithDecimal": {args: []kind{kSInt, kSInt}, res: tInt, tmpl: "(int_with_decimal $1 $2)", pre: []guard{{"($2 <? 0)", "NewIntWithDecimal() decimal is negative"}}, post: intOK},
 		pBig + ".NewInt":             {args: []kind{kSInt}, res: tBig, tmpl: "$1"},
+		"bytes.Compare":              {args: []kind{kBytes, kBytes}, res: tSInt, tmpl: "(bytes_cmp $1 $2)"},
 	}
 	dec := map[string]op{
 		"ZeroDec":          {res: tDec, tmpl: "0"},
@@ -224,7 +286,7 @@ var reserved = func() map[string]bool {
 		P PP Z N nat bool true false None Some option string negb andb orb list pair fst snd
 		int_ok dec_ok chop_round chop_round_nn chop_trunc dec_quo dec_quo_trunc dec_quo_roundup dec_mul
 		dec_mul_trunc dec_mul_int dec_quo_int dec_trunc_int dec_round_int dec_of_int dec_with_prec dec_ceil
-		chop_round_up_nn zcmp int_with_decimal u_add u_sub u_mul kres KOk KErr KPanic`) {
+		chop_round_up_nn zcmp int_with_decimal u_add u_sub u_mul kres KOk KErr KPanic bytes_cmp`) {
 		m[w] = true
 	}
 	return m
@@ -260,6 +322,13 @@ type tr struct {
 	monadic bool
 	guards  int
 	mutated []string // flattened fields that are assigned: "<param>_<field>"
+	markers []string // marker variables (sorted), part of every result
+	mtypes  map[string]string
+	extra   map[string]typ // parameters that do not come from the signature (reads, external outcomes, aliases, captured structs)
+	slice   []string
+	stypes  []typ
+	closure bool
+	seen    map[string]bool // locals / parameters that are read
 	results []typ
 	hasErr  bool
 }
@@ -322,8 +391,24 @@ func exprSrc(e ast.Expr) string {
 		return exprSrc(x.Fun) + "(...)"
 	case *ast.BasicLit:
 		return x.Value
+	case *ast.IndexExpr:
+		return exprSrc(x.X) + "[" + exprSrc(x.Index) + "]"
 	}
 	return nodeStr(e)
+}
+
+// callPath renders the callee of a call as a dotted path; inner argument-less calls keep "()":
+// k.Hooks().AfterEpochEnd, ctx.EventManager().EmitEvent, ctx.BlockTime
+func callPath(e ast.Expr) string {
+	switch x := e.(type) {
+	case *ast.Ident:
+		return x.Name
+	case *ast.SelectorExpr:
+		return callPath(x.X) + "." + x.Sel.Name
+	case *ast.CallExpr:
+		return callPath(x.Fun) + "()"
+	}
+	return "?"
 }
 
 func isAtom(s string) bool {
@@ -420,11 +505,23 @@ func kindName(k kind) string {
 		return "Big"
 	case kBigRecv:
 		return "BigRecv"
+	case kTime:
+		return "Time"
 	}
 	return ""
 }
 
 func (t *tr) expr(e ast.Expr, env map[string]typ, ps *[]pre) (string, typ) {
+	if a, ok := t.sp.Alias[exprSrc(e)]; ok {
+		t.extra[a.Name] = a.T
+		return ident(a.Name), a.T
+	}
+	if c, ok := e.(*ast.CallExpr); ok && len(c.Args) == 0 {
+		if r, ok := t.sp.Reads[callPath(c.Fun)]; ok {
+			t.extra[r.Name] = r.T
+			return ident(r.Name), r.T
+		}
+	}
 	switch x := e.(type) {
 	case *ast.ParenExpr:
 		return t.expr(x.X, env, ps)
@@ -442,6 +539,9 @@ func (t *tr) expr(e ast.Expr, env map[string]typ, ps *[]pre) (string, typ) {
 			return x.Name, tBool
 		}
 		if ty, ok := env[x.Name]; ok {
+			if t.seen != nil {
+				t.seen[x.Name] = true
+			}
 			return ident(x.Name), ty
 		}
 		if pv, ok := t.pkgVars[x.Name]; ok {
@@ -643,6 +743,9 @@ func (t *tr) finish(vals []string, env map[string]typ) string {
 	for _, m := range t.mutated {
 		vals = append(vals, ident(m))
 	}
+	for _, m := range t.markers {
+		vals = append(vals, ident(m))
+	}
 	v := t.tuple(vals)
 	if t.monadic {
 		return "KOk " + v
@@ -715,6 +818,19 @@ func (t *tr) ret(s *ast.ReturnStmt, env map[string]typ, d int) string {
 }
 
 func (t *tr) block(stmts []ast.Stmt, env map[string]typ, d int) string {
+	if len(stmts) == 0 && t.slice != nil {
+		var vals []string
+		t.stypes = nil
+		for _, v := range t.slice {
+			ty, ok := env[v]
+			if !ok {
+				t.fail(nil, "slice target %s is never assigned at the top level of the function", v)
+			}
+			vals = append(vals, ident(v))
+			t.stypes = append(t.stypes, ty)
+		}
+		return ind(d) + t.finish(vals, env) + "\n"
+	}
 	if len(stmts) == 0 {
 		if len(t.results) == 0 && !t.hasErr {
 			return ind(d) + t.finish(nil, env) + "\n"
@@ -727,9 +843,64 @@ func (t *tr) block(stmts []ast.Stmt, env map[string]typ, d int) string {
 		return t.ret(x, env, d)
 	case *ast.BlockStmt:
 		return t.block(append(append([]ast.Stmt{}, x.List...), rest...), env, d)
+	case *ast.ExprStmt:
+		call, ok := x.X.(*ast.CallExpr)
+		if !ok {
+			t.fail(x, "unsupported statement %s", nodeStr(x.X))
+		}
+		path := callPath(call.Fun)
+		for _, p := range t.sp.Skip {
+			if strings.HasPrefix(path, p) {
+				return t.block(rest, env, d)
+			}
+		}
+		if m, ok := t.sp.Markers[path]; ok {
+			var ps []pre
+			val := "true"
+			if len(m.Args) > 0 {
+				var as []string
+				for _, i := range m.Args {
+					if i >= len(call.Args) {
+						t.fail(x, "marker %s: call has no argument %d", path, i)
+					}
+					c, ty := t.expr(call.Args[i], env, &ps)
+					if !ty.numeric() {
+						t.fail(call.Args[i], "marker %s: argument of kind %s", path, ty)
+					}
+					as = append(as, c)
+				}
+				val = "(Some " + t.tuple(as) + ")"
+			}
+			return emitPre(ps, d) + ind(d) + "let " + ident(m.Name) + " := " + val + " in\n" + t.block(rest, env, d)
+		}
+		t.fail(x, "call statement %s (neither in the skip list nor a marker)", path)
+	case *ast.IncDecStmt:
+		one := &ast.BasicLit{Kind: token.INT, Value: "1", ValuePos: x.Pos()}
+		opTok := token.ADD
+		if x.Tok == token.DEC {
+			opTok = token.SUB
+		}
+		as := &ast.AssignStmt{Lhs: []ast.Expr{x.X}, Tok: token.ASSIGN, TokPos: x.Pos(),
+			Rhs: []ast.Expr{&ast.BinaryExpr{X: x.X, Op: opTok, Y: one, OpPos: x.Pos()}}}
+		return t.block(append([]ast.Stmt{as}, rest...), env, d)
 	case *ast.IfStmt:
 		if x.Init != nil {
-			t.fail(x, "if statement with an init clause")
+			// `if err := <external call>(); err != nil { ... }`: the outcome is a boolean input of the kernel
+			as, ok := x.Init.(*ast.AssignStmt)
+			var name string
+			if ok && len(as.Lhs) == 1 && len(as.Rhs) == 1 && as.Tok == token.DEFINE {
+				if c, ok := as.Rhs[0].(*ast.CallExpr); ok && len(c.Args) == 0 {
+					name = t.sp.ExtErr[callPath(c.Fun)]
+				}
+			}
+			be, _ := x.Cond.(*ast.BinaryExpr)
+			if name == "" || be == nil || be.Op != token.NEQ || exprSrc(be.X) != exprSrc(as.Lhs[0]) || exprSrc(be.Y) != "nil" || x.Else != nil {
+				t.fail(x, "if statement with an init clause")
+			}
+			t.extra[name] = tBool
+			thenB := t.block(append(append([]ast.Stmt{}, x.Body.List...), rest...), copyEnv(env), d+1)
+			elseB := t.block(rest, copyEnv(env), d+1)
+			return ind(d) + "if negb " + ident(name) + " then (\n" + thenB + ind(d) + ") else (\n" + elseB + ind(d) + ")\n"
 		}
 		var ps []pre
 		c, ty := t.expr(x.Cond, env, &ps)
@@ -775,6 +946,9 @@ func (t *tr) block(stmts []ast.Stmt, env map[string]typ, d int) string {
 			}
 			name = id.Name + "_" + l.Sel.Name
 			old, ok := env[name]
+			if ok && ty.k == kLit && (old.k == kSInt || old.k == kUint) {
+				ty = old
+			}
 			if !ok || old.k != ty.k {
 				t.fail(x, "assignment to field %s (not in the flattening table or kind mismatch)", exprSrc(l))
 			}
@@ -864,16 +1038,17 @@ func translate(repo string, sp *spec) (out string, err error) {
 	if perr != nil {
 		return "", fmt.Errorf("kernel2v: function %s: cannot parse %s: %v", sp.Func, sp.File, perr)
 	}
+	special := sp.Closure != "" || sp.SliceOf != nil
 	var fd *ast.FuncDecl
 	for _, d := range file.Decls {
-		if f, ok := d.(*ast.FuncDecl); ok && f.Name.Name == sp.Func && f.Recv == nil {
+		if f, ok := d.(*ast.FuncDecl); ok && f.Name.Name == sp.Func && (f.Recv == nil || special) {
 			fd = f
 		}
 	}
 	if fd == nil || fd.Body == nil {
 		return "", fmt.Errorf("kernel2v: function %s: not found as a top-level function in %s", sp.Func, sp.File)
 	}
-	t := &tr{sp: sp, fset: fset, imports: map[string]string{}, used: map[string]typ{}}
+	t := &tr{sp: sp, fset: fset, imports: map[string]string{}, used: map[string]typ{}, extra: map[string]typ{}, mtypes: map[string]string{}, seen: map[string]bool{}}
 	for _, im := range file.Imports {
 		p, _ := strconv.Unquote(im.Path.Value)
 		alias := filepath.Base(p)
@@ -886,6 +1061,30 @@ func translate(repo string, sp *spec) (out string, err error) {
 	if fd.Type.TypeParams != nil {
 		t.fail(fd, "generic function")
 	}
+	ftype, fbody := fd.Type, fd.Body
+	if sp.Closure != "" {
+		// the function literal passed to <x>.<Closure>(...)
+		var lit *ast.FuncLit
+		n := 0
+		ast.Inspect(fd.Body, func(nd ast.Node) bool {
+			if c, ok := nd.(*ast.CallExpr); ok {
+				if se, ok := c.Fun.(*ast.SelectorExpr); ok && se.Sel.Name == sp.Closure {
+					for _, a := range c.Args {
+						if l, ok := a.(*ast.FuncLit); ok {
+							lit = l
+							n++
+						}
+					}
+				}
+			}
+			return true
+		})
+		if lit == nil || n != 1 {
+			t.fail(fd, "expected exactly one function literal passed to a call of %s, found %d", sp.Closure, n)
+		}
+		ftype, fbody = lit.Type, lit.Body
+		t.closure = true
+	}
 	// parameters
 	env := map[string]typ{}
 	type param struct {
@@ -893,30 +1092,53 @@ func translate(repo string, sp *spec) (out string, err error) {
 		t    typ
 	}
 	var params []param
-	for _, f := range fd.Type.Params.List {
-		ty := t.goType(f.Type)
-		for _, n := range f.Names {
-			if ty.k == kStruct {
-				fs := sp.Flatten[n.Name]
-				if fs == nil {
+	fromSig := map[string]bool{}
+	if sp.SliceOf == nil {
+		for _, f := range ftype.Params.List {
+			for _, n := range f.Names {
+				if n.Name == "_" {
+					continue
+				}
+				if fs := sp.Flatten[n.Name]; fs != nil { // struct (value or pointer) replaced by its listed fields
+					fromSig[n.Name] = true
+					for _, fl := range fs {
+						params = append(params, param{n.Name + "_" + fl.Name, fl.T})
+						env[n.Name+"_"+fl.Name] = fl.T
+					}
+					continue
+				}
+				ty := t.goType(f.Type)
+				if ty.k == kStruct {
 					t.fail(f, "pointer-to-struct parameter %s without a flattening table", n.Name)
 				}
-				for _, fl := range fs {
-					params = append(params, param{n.Name + "_" + fl.Name, fl.T})
-					env[n.Name+"_"+fl.Name] = fl.T
+				if !ty.numeric() && ty.k != kBool {
+					t.fail(f, "parameter %s of kind %s", n.Name, ty)
 				}
-				continue
+				params = append(params, param{n.Name, ty})
+				env[n.Name] = ty
 			}
-			if !ty.numeric() && ty.k != kBool {
-				t.fail(f, "parameter %s of kind %s", n.Name, ty)
-			}
-			params = append(params, param{n.Name, ty})
-			env[n.Name] = ty
 		}
 	}
-	if fd.Type.Results != nil {
-		for _, f := range fd.Type.Results.List {
-			if len(f.Names) > 0 {
+	// structs captured from the enclosing scope (closures, slices): their listed fields are parameters too
+	var capt []string
+	for n := range sp.Flatten {
+		if !fromSig[n] {
+			capt = append(capt, n)
+		}
+	}
+	sort.Strings(capt)
+	for _, n := range capt {
+		if !special {
+			t.fail(fd, "flattening table for %s, which is not a parameter", n)
+		}
+		for _, fl := range sp.Flatten[n] {
+			params = append(params, param{n + "_" + fl.Name, fl.T})
+			env[n+"_"+fl.Name] = fl.T
+		}
+	}
+	if ftype.Results != nil && sp.SliceOf == nil {
+		for _, f := range ftype.Results.List {
+			if len(f.Names) > 0 && !t.closure {
 				t.fail(f, "named results")
 			}
 			ty := t.goType(f.Type)
@@ -930,16 +1152,103 @@ func translate(repo string, sp *spec) (out string, err error) {
 			if ty.k == kStruct && len(sp.RetFields) == 0 {
 				t.fail(f, "pointer-to-struct result without a result-field table")
 			}
-			t.results = append(t.results, ty)
+			cnt := len(f.Names)
+			if cnt == 0 {
+				cnt = 1
+			}
+			for c := 0; c < cnt; c++ {
+				t.results = append(t.results, ty)
+			}
 		}
 	}
-	t.mutated = t.mutatedFields(fd.Body)
+	stmts := fbody.List
+	if sp.SliceOf != nil {
+		// value slice: the top-level assignments the targets depend on, in source order
+		need := map[string]bool{}
+		for _, v := range sp.SliceOf {
+			need[v] = true
+		}
+		isInput := map[string]bool{}
+		for _, in := range sp.Inputs {
+			isInput[in.Name] = true
+			params = append(params, param{in.Name, in.T})
+			env[in.Name] = in.T
+		}
+		// all single assignments of the function, nested blocks included, in source order
+		var all []*ast.AssignStmt
+		ast.Inspect(fbody, func(nd ast.Node) bool {
+			if _, ok := nd.(*ast.FuncLit); ok {
+				return false
+			}
+			if as, ok := nd.(*ast.AssignStmt); ok {
+				all = append(all, as)
+			}
+			return true
+		})
+		var keep []ast.Stmt
+		for i := len(all) - 1; i >= 0; i-- {
+			as := all[i]
+			if len(as.Lhs) != 1 || len(as.Rhs) != 1 {
+				continue
+			}
+			id, ok := as.Lhs[0].(*ast.Ident)
+			if !ok || !need[id.Name] || isInput[id.Name] {
+				continue
+			}
+			keep = append([]ast.Stmt{as}, keep...)
+			if as.Tok == token.DEFINE {
+				delete(need, id.Name)
+			}
+			ast.Inspect(as.Rhs[0], func(nd ast.Node) bool {
+				switch y := nd.(type) {
+				case *ast.SelectorExpr:
+					ast.Inspect(y.X, func(n2 ast.Node) bool {
+						if i2, ok := n2.(*ast.Ident); ok {
+							need[i2.Name] = true
+						}
+						return true
+					})
+					return false
+				case *ast.Ident:
+					need[y.Name] = true
+				}
+				return true
+			})
+		}
+		stmts = keep
+		t.slice = sp.SliceOf
+	}
+	for _, m := range sp.Markers {
+		t.markers = append(t.markers, m.Name)
+		if len(m.Args) == 0 {
+			t.mtypes[m.Name] = "bool"
+		} else {
+			zs := make([]string, len(m.Args))
+			for i := range zs {
+				zs[i] = "Z"
+			}
+			t.mtypes[m.Name] = "option (" + strings.Join(zs, " * ") + ")"
+		}
+	}
+	sort.Strings(t.markers)
+	fbodyBlock := &ast.BlockStmt{List: stmts}
+	t.mutated = t.mutatedFields(fbodyBlock)
 	t.monadic = t.hasErr
-	body := t.block(fd.Body.List, env, 1)
+	body := t.block(stmts, env, 1)
 	if t.guards > 0 && !t.monadic {
 		t.monadic, t.tmp, t.guards = true, 0, 0
-		body = t.block(fd.Body.List, env, 1)
+		body = t.block(stmts, env, 1)
 	}
+	// markers start as "not executed"
+	minit := ""
+	for _, m := range t.markers {
+		if t.mtypes[m] == "bool" {
+			minit += ind(1) + "let " + ident(m) + " := false in\n"
+		} else {
+			minit += ind(1) + "let " + ident(m) + " : " + t.mtypes[m] + " := None in\n"
+		}
+	}
+	body = minit + body
 	// result type
 	var rts []string
 	for _, r := range t.results {
@@ -953,8 +1262,14 @@ func translate(repo string, sp *spec) (out string, err error) {
 			rts = append(rts, coqType(r))
 		}
 	}
+	for _, ty := range t.stypes {
+		rts = append(rts, coqType(ty))
+	}
 	for _, m := range t.mutated {
 		rts = append(rts, coqType(env[m]))
+	}
+	for _, m := range t.markers {
+		rts = append(rts, t.mtypes[m])
 	}
 	rt := strings.Join(rts, " * ")
 	if len(rts) == 0 {
@@ -964,8 +1279,21 @@ func translate(repo string, sp *spec) (out string, err error) {
 		rt = "kres (" + rt + ")"
 	}
 	var sb strings.Builder
-	sb.WriteString(fmt.Sprintf("(* %s : func %s *)\n", sp.File, sp.Func))
-	sb.WriteString("Definition " + sp.Func)
+	outName := sp.Func
+	what := "func " + sp.Func
+	if sp.Out != "" {
+		outName = sp.Out
+	}
+	if sp.Closure != "" {
+		what = "the function literal passed to " + sp.Closure + " in " + sp.Func + " (decision part)"
+	} else if sp.SliceOf != nil {
+		what = "value slice of " + strings.Join(sp.SliceOf, ", ") + " in " + sp.Func
+	}
+	sb.WriteString(fmt.Sprintf("(* %s : %s *)\n", sp.File, what))
+	sb.WriteString("Definition " + outName)
+	for n, ty := range t.extra {
+		t.used[n] = ty
+	}
 	var names []string
 	for n := range t.used {
 		names = append(names, n)
@@ -975,6 +1303,9 @@ func translate(repo string, sp *spec) (out string, err error) {
 		sb.WriteString(fmt.Sprintf(" (%s : %s)", ident(n), coqType(t.used[n])))
 	}
 	for _, p := range params {
+		if t.closure && !t.seen[p.name] && !strings.Contains(p.name, "_") {
+			continue // index parameter of a closure that only occurs inside aliased element expressions
+		}
 		sb.WriteString(fmt.Sprintf(" (%s : %s)", ident(p.name), coqType(p.t)))
 	}
 	sb.WriteString(" : " + rt + " :=\n" + strings.TrimRight(body, "\n") + ".\n")
@@ -1001,7 +1332,11 @@ func main() {
 			continue
 		}
 		sb.WriteString(s + "\n")
-		names = append(names, strconv.Quote(whitelist[i].Func)+"%string")
+		nm := whitelist[i].Func
+		if whitelist[i].Out != "" {
+			nm = whitelist[i].Out
+		}
+		names = append(names, strconv.Quote(nm)+"%string")
 	}
 	if failed {
 		fmt.Fprintln(os.Stderr, "kernel2v: translation aborted (correspondence broken: a pure kernel left the translatable subset)")
